@@ -39,9 +39,9 @@ CLAIMS = {
     "C05": ("documented-layout oracle vs planner/writer sites, reference encoding normal forms, memory-order rule for flat tables",
             "Decides: slot rounding of parts (L3, A0), item offset table and bulk data are written in memory order (L4), relative reference encoding with the reserved null and [offset, typeid] word order (R08), plus header/field sequences against the documented table when L1/L2/L6 are present in the rule list.",
             "That an independent decoder recovers concrete values.", "4.C05"),
-    "C06": ("attribute census / must-assign dataflow over materialisers, abstract rank inference, locator parity",
-            "Decides: every materialiser (__init__, _from_buffer, __setstate__) establishes the caches the view materialiser establishes, under the same class conditions (M1); every producer of the item-offset cache has rank nd (M2); get/set/offset-of share one locator (R10). A handle restored through the class's pickle state methods equals a view for every descriptor (PS); handles keep (buffer, offset, structure caches) only - no memoised child view or value (M4); shared caches are never edited in place (M3).",
-            "Observational equality of handle and view on concrete objects.", "4.C06"),
+    "C06": ("abstract interpretation of struct/array objects over bounded operation histories (kept handle vs fresh view), attribute census / must-assign dataflow over materialisers, abstract rank inference, locator parity",
+            "Decides by evaluation of the current source (SV): for S{a: Float64[:], b: Float64[:], c}, S[:] and String[3] objects, after every history of length <= 2 (quick) / 3 (thorough) over 16 operations (_update from an equal-size object of the same / another buffer, partial update, field and item assignment, copy then update of the copy, copy to another buffer, item assignment from an item / a struct, string item shrink / fit / too long, refused assignments) every kept handle locates every field and item exactly where a view made afresh from (buffer, offset) locates it, with the same shapes, and reads the values the history dictates. Also: every materialiser (__init__, _from_buffer, __setstate__) establishes the caches the view materialiser establishes, under the same class conditions (M1); every producer of the item-offset cache has rank nd (M2); get/set/offset-of share one locator (R10). A handle restored through the class's pickle state methods equals a view for every descriptor (PS); handles keep (buffer, offset, structure caches) only - no memoised child view or value (M4); shared caches are never edited in place (M3).",
+            "Histories longer than the bound, other type shapes than the evaluated zoo (N-d arrays of dynamic items, unions, references inside the rewritten objects); a second handle to an object that was restructured through another handle is outside the property (no handle can refresh another).", "4.C06, 10.14"),
     "C07": ("get/set twin analysis over emitted-C templates",
             "Decides: setter and getter share one address computation and one typed access (C07.R1/R2) and the shared computation obeys T1-T3, T5.",
             "Sanitizer-clean execution; 'changes nothing else' on a concrete image.", "4.C07"),
@@ -51,18 +51,18 @@ CLAIMS = {
     "C09": ("dominance of the _has_refs guard over every whole-object byte copy, propagation of _has_refs, fresh-allocation rule",
             "Decides: a raw byte copy is reachable only for reference-free types (G1) and _has_refs is True for both reference kinds and the OR over inner types in both container metaclasses (G1b); reference writers alias only same-buffer objects (G4); each constructor (struct, struct from an object elsewhere, array by value / by length, string, union) is evaluated: one allocation of the planned size before any write, every write inside it, the new object views it (R09); cross-context dispatch of update_from_xbuffer (B3). Field-wise struct copies are placed per the documented layout (L2c); shared handle caches are never edited in place (M3); bulk copies of python attributes between hybrid handles are re-validated against the destination's storage (H6); _has_refs propagation is evaluated on the metaclasses (G1b).",
             "Value equality and storage disjointness of concrete copies.", "4.C09"),
-    "C10": ("locator normal-form equality, dispatch exhaustiveness, capacity guards",
-            "Decides: for every in-range index of 1-D/2-D arrays (C/F order, static/dynamic shape, leaf/compound/dynamic items) offset-of = read position = write position = the place where construction stored that item (R10e, evaluated), fields go through one locator (R10, L2); cached part offsets are re-read after a rewrite that can move parts (R10r); compounds are updated through their own _update and leaves are written at the located offset; only fitting values can be written (G2); byte copies only without references (G1). Assignment dispatch per kind of part (R12), partial struct updates write exactly the named fields (R15), string write extents (L6), no memoised views (M4), shared caches not edited in place (M3).",
+    "C10": ("abstract interpretation over operation histories with a frame condition on the abstract memory; locator agreement by evaluation; dispatch exhaustiveness, capacity guards",
+            "Decides by evaluation (SV, see C06): an assignment / update changes no known word of the abstract memory outside the element or object it is applied to, every other leaf reads what the history dictates, a value that does not fit is refused with nothing changed. Also: for every in-range index of 1-D/2-D arrays (C/F order, static/dynamic shape, leaf/compound/dynamic items) offset-of = read position = write position = the place where construction stored that item (R10e, evaluated), fields go through one locator (R10, L2); cached part offsets are re-read after a rewrite that can move parts (R10r); compounds are updated through their own _update and leaves are written at the located offset; only fitting values can be written (G2); byte copies only without references (G1). Assignment dispatch per kind of part (R12), partial struct updates write exactly the named fields (R15), string write extents (L6), no memoised views (M4), shared caches not edited in place (M3).",
             "That all other elements keep their values over a history.", "4.C10"),
     "C11": ("raising guard dominates the effect, per misuse class; refusal-precedes-mutation by may-follow analysis",
             "Decides for each misuse class of the statement that a raising guard with the stated condition dominates the effect (R11: index bound, update length and shape, construction shape, union membership; allocate_on_buffer is evaluated on recording contexts/buffers for 18 argument combinations: offset without buffer and foreign-context buffer refused before a buffer is created / anything allocated, placement modes, explicit offsets used as given), every Array accessor refuses an out-of-range index before any read or write (G3e, evaluated), the bound check dominates every locator (G3), capacity comparison precedes every in-place rewrite (G2), and no refusal is reachable after a mutation in functions that rewrite existing objects (G5). Shape/rank/arity refusals are evaluated for every array descriptor (R13), union non-members by evaluation of the writer (R14), string capacity from encoded bytes (L6).",
             "'Every existing object unchanged' on concrete buffers; misuse classes not enumerated by the statement.", "4.C11"),
     "C12": CLAIMS_C12,
-    "C13": ("slice extent normal forms for 3 buffer classes x 9 primitives, copy-vs-view table, context dispatch, sibling signatures",
-            "Decides: every slice of a copy primitive is [lo : lo+n] with the documented offset parameter and one common length (B1, incl. the never-executed BufferCupy), dtype conversion precedes the byte transfer, extracting primitives copy and viewing primitives alias (B2), update_from_xbuffer evaluated on recording buffers of the same / of another context (B3), sibling signature agreement (B4), the four scalar helpers of each of the 10 scalar types evaluated against a recording model of np.dtype/np.frombuffer (SC), _new_buffer size (NB). Copy/view classification of every extracting/viewing primitive by an abstract alias domain over the native storage (B2).",
-            "Byte images on concrete buffers; dtype conversion values.", "4.C13"),
+    "C13": ("abstract interpretation of the CPU buffer primitives on an abstract native storage (bytearray / ndarray semantics) for every documented kind of source; slice extent normal forms for all buffer classes, copy-vs-view table, context dispatch, sibling signatures",
+            "Decides by evaluation of the current source (B1e): for both CPU buffer classes and each of the seven copy primitives, with sources that are n bytes, typed memoryviews (len = items, nbytes = items*itemsize), regions of another storage and numpy arrays of C / Fortran / last-axis-strided layout with and without dtype conversion: no exception, exactly one store of exactly the data's byte length at [offset, offset+nbytes) (a store of another length would resize a bytearray / raise on an ndarray), data taken from the requested place; extracting primitives return independent copies, viewing primitives views at the requested offset and count. Also: every slice of a copy primitive is [lo : lo+n] with the documented offset parameter and one common length (B1, incl. the never-executed BufferCupy), dtype conversion precedes the byte transfer, extracting primitives copy and viewing primitives alias (B2), update_from_xbuffer evaluated on recording buffers of the same / of another context (B3), sibling signature agreement (B4), the four scalar helpers of each of the 10 scalar types evaluated against a recording model of np.dtype/np.frombuffer (SC), _new_buffer size (NB). Copy/view classification of every extracting/viewing primitive by an abstract alias domain over the native storage (B2).",
+            "Byte images on concrete buffers; the numeric result of a dtype conversion; numpy behaviour outside the modelled fragment (reported as analysis error, never as a verdict).", "4.C13, 10.14"),
     "C14": ("flag-consumption by dominance, exhaustiveness of dependency collection, uniqueness analysis of the Kahn frontier, order-of-use",
-            "Decides: the cycle flag reaches a raise before any return (D1); dependency collection covers every container kind and closes transitively (D2); the two frontier sources of topological_sort are disjoint and the Kahn bookkeeping emits a node exactly when its last dependency was emitted (D4); the sorted list is used in order for API sources and cdefs, headers precede class sources precede user sources in all three contexts (D5); include guards when the template rules are present. No generator memoises its result on the class through an inheritance-following lookup (D6); the zoo's API has each accessor exactly once (T4.once).",
+            "Decides: the cycle flag reaches a raise before any return (D1); dependency collection covers every container kind and closes transitively (D2); the two frontier sources of topological_sort are disjoint and the Kahn bookkeeping emits a node exactly when its last dependency was emitted (D4); the sorted list is used in order for API sources and cdefs, headers precede class sources precede user sources in all three contexts (D5); include guards when the template rules are present. No generator memoises its result on the class through an inheritance-following lookup (D6); the zoo's API has each accessor exactly once (T4.once). sort_classes is evaluated on every dependency graph of up to 3 (quick) / 4 (thorough) classes and on 120 cases of a class given again under the same name (DG): each class once, the last object given for a name, after all of its own dependencies; cycles refused.",
             "That Kahn's loop yields a topological order for every graph (algorithmic); that the emitted source compiles.", "4.C14"),
     "C15": ("abstract evaluation of the specialiser per target, substitution tables, qualifier placeholders in emitted templates",
             "Decides: target substitution only touches qualifier placeholders (S8), every pointer type of every emitted template carries the global-memory placeholder (T6), function qualifier (T7), target integer typedef widths (S10).",
@@ -70,8 +70,8 @@ CLAIMS = {
     "C16": ("abstract evaluation of the specialiser per target and line class, ceil-division idiom table for the launch geometry",
             "Decides: launch geometry by evaluation of both launchers with recording device functions (K6: CUDA grid x block covers n with block = block_size, OpenCL global size exactly n, n given as a constant or as the name of an argument, n around multiples of the block size) and, when the specialiser rules S1-S9 are present in the rule list, the per-target loop/guard templates, brace balance, context-restricted lines, include splice and pass-through. One OpenMP predicate selects the specialisation target, omp.h, -fopenmp and omp_set_num_threads (S10.target); line classes are crossed with their origin (plain / included file).",
             "Results for concrete n on devices.", "4.C16"),
-    "C17": ("linear normal form of pointer derivation, type-derivation rules, refusal guards, table oracle",
-            "Decides: xobjects are passed as address(current storage)+current offset typed by the declared class (K1), ndarrays as a pointer to their first element typed from their own dtype, xobject arrays from offset+data offset typed from their item type (K2), dtype<->C tables (T5/K3), positional refusal, arity check before conversion, declared order, identity return, cffi signature (K4), no cached native storage (NC). The ndarray pointer is derived from the caller's array itself, never through a call that may copy (K1.ndarray.nocopy); the cffi signature is evaluated on abstract kernels (K4.cdef).",
+    "C17": ("abstract interpretation of the three kernel launchers and the dispatcher with recording converters and C functions; linear normal form of pointer derivation, type-derivation rules, table oracle",
+            "Decides by evaluation (K4e): a well-formed call (keywords in any order) calls the C function exactly once with the converted arguments in declared order and hands its return value back, on serial and OpenMP contexts and for the CUDA/OpenCL launchers; calls with a missing, extra, misspelt or positional argument raise before the C function runs. Also: xobjects are passed as address(current storage)+current offset typed by the declared class (K1), ndarrays as a pointer to their first element typed from their own dtype, xobject arrays from offset+data offset typed from their item type (K2), dtype<->C tables (T5/K3), positional refusal, arity check before conversion, declared order, identity return, cffi signature (K4), no cached native storage (NC). The ndarray pointer is derived from the caller's array itself, never through a call that may copy (K1.ndarray.nocopy); the cffi signature is evaluated on abstract kernels (K4.cdef).",
             "Exact values through cffi; the arity check is an assert (stripped by python -O).", "4.C17"),
     "C18": ("abstract interpretation of the dressing layer (metaclass, descriptors, xoinitialize, _reinit_from_xobject, move, copy, struct/ref writers) on an abstract memory over every bounded history of {set, nested assignment, reference assignment, construct, copy, move, state round trip, buffer growth}; refusal predicate as a truth table; name-space typing of rename maps",
             "Decides by evaluation of the current source (HV): after every step of every history of length <= 2 (quick) / <= 4 (thorough) over 22 operations on a class zoo with nested, renamed, reference and array fields, every nested dressed object views exactly the bytes of its field, every reference attribute views the referent the stored word points to, every scalar attribute reads its field's slot, every array attribute is a view of the array data in the current storage; a by-value assignment copies exactly the object's bytes to the field and leaves the value where it was; copy/move allocate the object's size and copy its bytes; references are shared inside one buffer and refused across buffers before any write; move of a nested part, of an object holding references and of a referenced object is refused before any write. Also: move refusals and their order w.r.t. reconstruction (H1), every stored dressed child is marked non-movable and views the container's field, _xobject restored after the python-side copy (H2), name-space typing xo/py of every field-name use (H4), reads go through the buffer (H5), cross-buffer reference refusal precedes the write (G5h). Bulk attribute copies between hybrid handles are re-validated (H6: nested parts rebuilt, dressed referents dropped unless they view the referent); the data copy of a by-value assignment is skipped only for the same buffer AND offset (H7).",
